@@ -4,6 +4,8 @@ package main
 
 import (
 	"bytes"
+	"os"
+	"path/filepath"
 	"encoding/json"
 	"fmt"
 	"go/types"
@@ -390,6 +392,14 @@ func registerIntrinsics(e *Engine) {
 		x.stubRet[name] = res
 		return nil
 	})
+	// vHostFile(rel): text of a file below the directory the generator wrote to (concrete)
+	reg("vHostFile", func(x *Exec, a []Value) Value {
+		b, err := os.ReadFile(filepath.Join(os.Getenv("VERIF_GEN_DIR"), cstr(x, a[0])))
+		if err != nil {
+			return TupleVal{mkStr(""), TFalse}
+		}
+		return TupleVal{mkStr(string(b)), TTrue}
+	})
 	// vStubReturnN(funcName, n, results...): the n-th call (from 0) of funcName answers with the canned results
 	reg("vStubReturnN", func(x *Exec, a []Value) Value {
 		name := cstr(x, a[0])
@@ -717,6 +727,23 @@ func registerLibModels(e *Engine) {
 		pt, ok := target.T.(*types.Pointer)
 		if !ok {
 			panic(unsupported("json.Unmarshal into " + target.T.String()))
+		}
+		// []json.RawMessage: the raw text of each element
+		if sl, isSl := pt.Elem().Underlying().(*types.Slice); isSl && sl.Elem().String() == "encoding/json.RawMessage" {
+			var raws []json.RawMessage
+			if err := json.Unmarshal(buf, &raws); err != nil {
+				return x.errorValue(err.Error())
+			}
+			vs := make([]Value, len(raws))
+			for i, r := range raws {
+				bs := make([]Value, len(r))
+				for j, c := range r {
+					bs[j] = mkBV(8, uint64(c))
+				}
+				vs[i] = mkSlice(bs)
+			}
+			x.deref(target.V.(*PtrVal)).Store(mkSlice(vs))
+			return nilIface
 		}
 		var raw interface{}
 		dec := json.NewDecoder(bytes.NewReader(buf))
